@@ -51,6 +51,8 @@ class CaseResult:
 def _run_chunk(args):
     binary, cases = args
     text = "\n".join("\n".join(c["lines"]) for c in cases) + "\n"
+    if "threads=HW" in text:
+        text = text.replace("threads=HW", "threads=%d" % common.hw_threads())     # the machine's hardware concurrency, for both sides
     rc, out, err = common.run_harness(binary, text)
     rcl, outl, errl = common.run_driver(text)
     cpp = common.split_cases(out)
